@@ -44,3 +44,27 @@ ENTRIES += [
     B('urljoin-self-recursion', "            return urllib.parse.urljoin(\n                base_url,\n                '{0}:{1}'.format(scheme, url),", "            return urljoin(\n                base_url,\n                '{0}:{1}'.format(scheme, url),", 'C11-D2'),
     N('ipv6-zone-check-on-literal', "        if '%' in hostname:", "        if '%' in hostname[1:-1]:"),
 ]
+
+RW = 'wpull/urlrewrite.py'
+HT = 'wpull/scraper/html.py'
+ENTRIES += [
+    # consumers of scheme-dependent fields: the guard must stop every scheme the parser leaves them None for
+    B('rewriter-guard-prefix', "        if url_info.scheme not in ('http', 'https'):\n            return url_info\n",
+      "        if not url_info.scheme.startswith('http'):\n            return url_info\n", 'C11-D1b', RW),
+    B('rewriter-guard-dropped', "        if url_info.scheme not in ('http', 'https'):\n            return url_info\n\n", "", 'C11-D1b', RW),
+    B('rewriter-guard-mailto-only', "        if url_info.scheme not in ('http', 'https'):\n            return url_info\n",
+      "        if url_info.scheme in ('mailto', 'javascript', 'data'):\n            return url_info\n", 'C11-D1b', RW),
+    N('rewriter-guard-table', "        if url_info.scheme not in ('http', 'https'):\n            return url_info\n",
+      "        if url_info.scheme not in ('http', 'https', 'ftp'):\n            return url_info\n", RW),
+    N('rewriter-guard-eq', "        if url_info.scheme not in ('http', 'https'):\n            return url_info\n",
+      "        if url_info.scheme != 'http' and url_info.scheme != 'https':\n            return url_info\n", RW),
+    N('rewriter-positive-guard', "        if self._hash_fragment_enabled and url_info.fragment.startswith('!'):",
+      "        if self._hash_fragment_enabled and url_info.fragment and url_info.fragment.startswith('!'):", RW),
+    # the base of a join is never None
+    B('html-base-fallback-none', "                        element_base_url = urljoin_safe(\n                            base_url, clean_base_url\n                        ) or base_url\n\n                cleaned_url = clean_link_soup(link_info.link)",
+      "                        element_base_url = urljoin_safe(\n                            base_url, clean_base_url\n                        ) or doc_base_url\n\n                cleaned_url = clean_link_soup(link_info.link)", 'C11-D3', HT),
+    B('html-base-no-fallback', "                        element_base_url = urljoin_safe(\n                            base_url, clean_base_url\n                        ) or base_url\n\n                cleaned_url = clean_link_soup(link_info.link)",
+      "                        element_base_url = urljoin_safe(\n                            base_url, clean_base_url\n                        )\n\n                cleaned_url = clean_link_soup(link_info.link)", 'C11-D3', HT),
+    N('html-base-fallback-element', "                        element_base_url = urljoin_safe(\n                            base_url, clean_base_url\n                        ) or base_url\n\n                cleaned_url = clean_link_soup(link_info.link)",
+      "                        element_base_url = urljoin_safe(\n                            element_base_url, clean_base_url\n                        ) or element_base_url\n\n                cleaned_url = clean_link_soup(link_info.link)", HT),
+]
